@@ -202,7 +202,13 @@ impl VMMap for Map64 {
 
     fn get_descriptor_for_address(&self, address: Address) -> SpaceDescriptor {
         if let Some(index) = Self::space_index(address) {
-            self.inner().descriptor_map[index]
+            // The heap range [heap_start, heap_end] spans the indices 1..=MAX_SPACES + 1, but only
+            // MAX_SPACES descriptors exist: no space can live in the slots at or above MAX_SPACES.
+            self.inner()
+                .descriptor_map
+                .get(index)
+                .copied()
+                .unwrap_or(SpaceDescriptor::UNINITIALIZED)
         } else {
             SpaceDescriptor::UNINITIALIZED
         }
